@@ -49,6 +49,8 @@ type c06case struct {
 	sub     bool // the gateway, its catch events and the branch tasks sit inside an embedded sub-process
 	// forkdown: behind every catch event a parallel fork: one path straight to an end event (listed first), the task on the other
 	forkdown bool
+	// inclmerge: the alternatives' branches meet at an inclusive gateway in front of the end event
+	inclmerge bool
 }
 
 func c06seqs(k, maxLen int) [][]int {
@@ -107,6 +109,22 @@ func c06cases(tier string) []c06case {
 			cs = append(cs, c06case{k: k, mode: "seq", seq: s, forkdown: true})
 		}
 	}
+	// the alternatives' branches merged by an inclusive gateway: every pair of events, sequentially, back to back and
+	// from two goroutines (a loser that takes its own event and loses the race is gone like a withdrawn one)
+	for _, s := range c06seqs(3, 2) {
+		for _, m := range []string{"seq", "nw", "conc"} {
+			cs = append(cs, c06case{k: 3, mode: m, seq: s, inclmerge: true})
+		}
+	}
+	// … and the enforced schedules in which the loser has taken its own event when the winner is determined
+	for w := 0; w < 3; w++ {
+		for l := 0; l < 3; l++ {
+			if l != w {
+				cs = append(cs, c06case{k: 3, mode: "wit", seq: []int{w, l}, inclmerge: true})
+				cs = append(cs, c06case{k: 3, mode: "wit2", seq: []int{w, l}, inclmerge: true})
+			}
+		}
+	}
 	if tier == "thorough" {
 		// seeded perturbation of every schedule point, for the racy delivery modes
 		for k := 2; k <= 3; k++ {
@@ -162,6 +180,12 @@ func c06run(out *rec.Out, c c06case, rng *rec.Rng, stats map[string]int) {
 	st := g.Add("startEvent", "start", par)
 	en := g.Add("endEvent", "end", par)
 	g.Connect(st, gw, nil)
+	if c.inclmerge {
+		// the branches of the alternatives are merged by an INCLUSIVE gateway: it must let the winner's token through
+		// although the other alternatives' tokens never arrive (they were withdrawn — they are gone, not late)
+		ij := g.Add("inclusiveGateway", "IJ", par)
+		g.Connect(ij, en, nil)
+	}
 	for j := 0; j < c.k; j++ {
 		ce := g.Add("intermediateCatchEvent", fmt.Sprintf("C%d", j), par)
 		ce.Defs = []eng.EventDef{{Kind: c06kinds[j], Name: c06names[j]}}
@@ -178,7 +202,14 @@ func c06run(out *rec.Out, c c06case, rng *rec.Rng, stats map[string]int) {
 		} else {
 			g.Connect(ce, t, nil)
 		}
-		g.Connect(t, en, nil)
+		if c.inclmerge {
+			g.Connect(t, g.Node("IJ"), nil)
+		} else {
+			g.Connect(t, en, nil)
+		}
+	}
+	if c.inclmerge {
+		stats["alternatives_merged_by_an_inclusive_gateway"]++
 	}
 	if c.forkdown {
 		stats["alternatives_whose_branch_forks"]++
@@ -190,7 +221,7 @@ func c06run(out *rec.Out, c c06case, rng *rec.Rng, stats map[string]int) {
 		g.Connect(subNode, oen, nil)
 		stats["gateway_inside_a_sub_process"]++
 	}
-	out.Begin("c06", c.k, c.mode, c06seqString(c.seq), c.perturb, rec.B(c.sub), rec.B(c.forkdown))
+	out.Begin("c06", c.k, c.mode, c06seqString(c.seq), c.perturb, rec.B(c.sub), rec.B(c.forkdown), rec.B(c.inclmerge))
 	defer out.End()
 
 	var ctl *sched.Controller
